@@ -1,5 +1,6 @@
 """Syntactic layer (C08 - C11): constructors, casts, modelcheck guards, printing/parsing, equality."""
 import itertools
+from common import exc_name
 import json
 import re
 
@@ -151,7 +152,7 @@ def guarded(fn):
     except (KeyboardInterrupt, SystemExit, MemoryError):
         raise
     except BaseException as ex:
-        return {'exc': type(ex).__name__, 'msg': str(ex)[:80]}
+        return {'exc': exc_name(ex), 'msg': str(ex)[:80]}
 
 
 SMALL_K = None
@@ -229,7 +230,7 @@ def syn_event(c):
                     return describe(LANGS[c['lang']].Parser()(text))
                 return describe(parser(c['lang'])(text))
             except pymc.parsermod.ParserError as ex:
-                return {'exc': type(ex).__name__, 'pos': int(ex.pos) if isinstance(ex.pos, int) else -1}
+                return {'exc': exc_name(ex), 'pos': int(ex.pos) if isinstance(ex.pos, int) else -1}
         ev['out'] = guarded(run)
         if 'exc' in ev['out'] and 'pos' not in ev['out']:
             ev['out']['pos'] = -1
@@ -249,7 +250,7 @@ def syn_event(c):
             b = a.clone()
             ev.update({'g': to_tree(b), 'e': bool(a == b) and bool(b == a), 'shared': len(_ids(a) & _ids(b)), 'lang2': lang_of(b)})
         except BaseException as ex:
-            ev['exc'] = type(ex).__name__
+            ev['exc'] = exc_name(ex)
     elif op == 'bool':
         L = LANGS[c['lang']]
         bo = L.Bool(c['b'])
@@ -370,7 +371,7 @@ def rand_formula(rnd, lang, depth, atoms):
 
 
 def run_events(ctx, cases):
-    from common import pmap
+    from common import pmap, exc_name
     for i, c in enumerate(cases):
         c['tid'] = i
     evs = pmap(syn_event, cases)
